@@ -96,6 +96,18 @@ def register(claim):
           "reference constness and a published override of a merely public base virtual.",
           "Partial: truthfulness of the record builders is an entity-by-entity comparison per run, not a theorem.",
           "Lean 4 proof (comment attachment invariant) + differential correspondence + ground-truth comparison (exploration)", "DESIGN.md §5 C05")
+    claim("C01",
+          "Lean 4 theorems over a model of the converter table of InterfaceMaker::remap_parameter and of record_function's default-argument "
+          "expansion: every argument kind that has a converter crosses the wrapper unchanged — the same scalar, the same pointer, the same object, "
+          "not a copy elsewhere (c01_argument_crosses), kinds without a converter are refused (c01_unwrappable_refused), and a function with n "
+          "parameters, d of them defaulted, gets exactly the arities n-d..n, each once, each forwarding its own arguments followed by the declared "
+          "defaults (c01_arities, c01_arities_nodup, c01_forwarded_length). The converter chosen per parameter and the arities per function are tied "
+          "to the generated code. Behaviour is decided per run: generated libraries with instrumented bodies are wrapped with -c and -python (with and "
+          "without -string), compiled with the generated code, and every wrapper is called next to the direct C++ call on twin objects — boundary "
+          "values of every integer width, bool/char/float/double/enum, by-value/reference/pointer class arguments, C strings and std::string, virtual "
+          "dispatch through base-class wrappers on derived objects, repeated calls, data-member accessors.",
+          "Partial: 'wrapper = direct call' is decided by execution (no C++ semantics in Lean); operators, casts, namespaces and -true-names/-promiscuous are not in the generated libraries yet.",
+          "Lean 4 proof (converter table, arity expansion) + correspondence on generated code + differential execution (exploration)", "DESIGN.md §5 C01")
     claim("C20",
           "Lean 4 theorems: guarded accessors return the neutral value off-range and the entry in range; every lookup answers from the current maps "
           "for every sequence of requests/lookups/queries (cache invariant by induction over operations) and is sound/absent/exact; the unique-name "
